@@ -6,6 +6,13 @@ Stages:
   2. specification oracles evaluated by the extracted Coq spec functions on the implementation's
      outputs: o.solves (A x = b with Kernels.spmv), o.perm (permutation of 0..n-1),
      o.inverse (A inv(A) = I); skyb (block value type) has only this oracle;
+  2a. A3-B outcome oracle (python, exact rank): detail::inverse / math::inverse(static_matrix) end in the assertion
+     exactly on the singular inputs (C16_inverse_nonsingular and its converse via A inv(A) = I);
+  2b. exact QR oracles (python, exact rationals, NO tolerance) on the implementation's QR<vq::Q> outputs for
+     the "perfect square" family qr/qr2/qrsolve/qrsolvec with meta sq=True: A = Q0 R0 with Q0 rational
+     orthogonal and dyadic diag(R0), so that every square root met is exact in vq::Q and the theorems
+     C16_qr_factorize_correct / C16_qr_solve_* apply literally: Q R = A, Q'Q = I, R upper triangular,
+     R'R = A'A, normal equations / A x = b and x in the row space;
   3. double build (tested, not proved): d.qr / d.qr2 / d.qrsolve / d.inv / d.sky outputs are exact
      binary64 values printed as rationals; residual oracles in exact rational arithmetic below with
      tolerance 1e-10 * scale.
@@ -22,12 +29,12 @@ ASSUMPTIONS = [
     "skyline_lu / detail::inverse / QR / static_matrix instantiated with the exact rational vq::Q execute the same template code as with double",
     "CRS inputs have no duplicate column inside a row (skyline_lu overwrites a duplicate entry where spmv adds it) and are square with n >= 1",
     "assert() in detail::inverse is active (no NDEBUG); it is mapped to the outcome 'EXC assert'",
-    "QR: A = QR / Q'Q = I / least-squares are TESTED in binary64 with tolerance 1e-10*scale, not proved; the exact QR<vq::Q> run ties the code to the model Qr.v only",
+    "QR: A = QR / Q'Q = I / least-squares / minimum-norm are PROVED for the model Qr.v over any field with a true square root (closed at R); the exact QR<vq::Q> run (pseudo-root) ties the code to the model digit for digit; on inputs whose column norms are squares of dyadic rationals the pseudo-root is exact and the proved identities are checked on the implementation's output in exact arithmetic; for general inputs they are TESTED in binary64 with tolerance 1e-10*scale",
     "complex value types are not instantiated; block value types only through static_matrix<vq::Q,b,b>",
 ]
 TRUSTED_BASE = [
     "harness/drv_direct.cpp turns __assert_fail into an outcome with longjmp (glibc symbol interposition)",
-    "python-side exact rational residual oracles for the double build (tools/props/C16.py)",
+    "python-side exact rational residual oracles for the double build and for the exact perfect-square QR family (tools/props/C16.py)",
 ]
 RULE = ("cases derived from VERIF_SEED by tools/props/C16.py: exhaustive small sparsity patterns x value palettes + random; "
         "distinct = distinct case payload; non-trivial = implementation output contains a non-zero value and is not an exception")
@@ -328,6 +335,65 @@ def qr_cases(r, tier, add, exact):
         if m >= n:
             add(pfx + "qrsolvec", "%d %d %d %s %s" % (order, m, n, fmt_vec(flat(a, order)), fmt_vec(b)), meta=dict(a=a, b=b, kind=kind))
 
+# ---- "perfect square" QR family: every square root met by QR<vq::Q> is exact ---------------------
+def _eye(m): return [[F(1) if i == j else F(0) for j in range(m)] for i in range(m)]
+def _mm(a, b):
+    return [[sum((a[i][l] * b[l][j] for l in range(len(b))), F(0)) for j in range(len(b[0]))] for i in range(len(a))]
+def _tr(a): return [list(c) for c in zip(*a)] if a else []
+
+def rat_orth(r, m, nrefl=None):
+    """rational orthogonal m x m matrix: product of rational Householder reflections I - 2uu'/u'u (small integer u)
+    and a signed permutation"""
+    q = _eye(m)
+    for _ in range(r.randint(0, 2) if nrefl is None else nrefl):
+        u = [F(r.randint(-2, 2)) for _ in range(m)]
+        uu = sum(x * x for x in u)
+        if uu == 0: continue
+        h = [[(F(1) if i == j else F(0)) - 2 * u[i] * u[j] / uu for j in range(m)] for i in range(m)]
+        q = _mm(q, h)
+    perm = list(range(m)); r.shuffle(perm)
+    sg = [r.choice([1, -1]) for _ in range(m)]
+    return [[q[i][perm[j]] * sg[j] for j in range(m)] for i in range(m)]
+
+def sq_matrix(r, m, n, kind):
+    """m x n matrix A = Q0 R0, Q0 rational orthogonal, R0 upper triangular/trapezoidal with a dyadic non-zero diagonal:
+    by uniqueness of QR the norms met by Householder QR are |R0_ii|, whose squares have exact roots in vq::Q.
+    kinds: full | lastzero (R0[k-1][k-1] = 0: tau = 0 branch in the last column) | upper (Q0 = I: tau = 0 everywhere)
+           | zero"""
+    k = min(m, n)
+    if kind == "zero": return [[F(0)] * n for _ in range(m)]
+    r0 = [[F(0)] * n for _ in range(m)]
+    for i in range(k):
+        for j in range(i, n):
+            if i == j: r0[i][j] = F(r.choice([1, 2, 3, 5, -1, -2, -3, 7]), r.choice([1, 1, 2, 4, 8]))
+            else: r0[i][j] = F(r.randint(-4, 4), r.choice([1, 1, 2, 3]))
+    if kind == "lastzero": r0[k - 1][k - 1] = F(0)
+    q0 = _eye(m) if kind == "upper" else rat_orth(r, m, nrefl=r.choice([1, 1, 2]))
+    return _mm(q0, r0)
+
+def sq_cases(r, tier, add):
+    quick = tier == "quick"
+    N = 70 if quick else 500
+    mx = 5 if quick else 6
+    for it in range(N):
+        m = r.randint(1, mx); n = r.randint(1, mx)
+        order = r.randrange(2)
+        kind = r.choice(["full", "full", "full", "full", "lastzero", "upper", "zero"])
+        a = sq_matrix(r, m, n, kind)
+        add("qr", "%d %d %d %s" % (order, m, n, fmt_vec(flat(a, order))), dict(a=a, kind=kind, sq=True))
+        if it % 4 == 0:
+            m1 = r.randint(1, 4); n1 = r.randint(1, 4); o1 = r.randrange(2)
+            a1 = dense(r, m1, n1, "full")
+            add("qr2", "%d %d %d %s %d %d %d %s" % (o1, m1, n1, fmt_vec(flat(a1, o1)), order, m, n, fmt_vec(flat(a, order))),
+                dict(a=a, kind=kind, sq=True))
+        # solve: full rank only; wide systems factorise A', so A' must be of the form Q0 R0
+        m2 = r.randint(1, mx); n2 = r.randint(1, mx); o2 = r.randrange(2)
+        a2 = sq_matrix(r, m2, n2, "full") if m2 >= n2 else _tr(sq_matrix(r, n2, m2, "full"))
+        b2 = [gen.rq(r) for _ in range(m2)]
+        add("qrsolve", "%d %d %d %s %s" % (o2, m2, n2, fmt_vec(flat(a2, o2)), fmt_vec(b2)), dict(a=a2, b=b2, kind="full", sq=True))
+        if m2 >= n2 and it % 2 == 0:
+            add("qrsolvec", "%d %d %d %s %s" % (o2, m2, n2, fmt_vec(flat(a2, o2)), fmt_vec(b2)), dict(a=a2, b=b2, kind="full", sq=True))
+
 def dbl_cases(r, tier, add):
     quick = tier == "quick"
     for it in range(100 if quick else 800):
@@ -357,6 +423,7 @@ def cases(tier, seed):
     def addm(op, payload, meta=None): add(op, payload, meta)
     sky_cases(r, tier, add); skyb_cases(r, tier, add); cm_cases(r, tier, add); inv_cases(r, tier, add)
     sm_cases(r, tier, add); qr_cases(r, tier, addm, True); qr_cases(r, tier, addm, False); dbl_cases(r, tier, addm)
+    sq_cases(random.Random(seed * 1000 + 1616), tier, addm)     # own stream: the older families keep their cases
     return out, meta
 
 # ------------------------------------------------------------------ double-build oracles (exact rational arithmetic)
@@ -466,6 +533,54 @@ def check_dsky(line, out, meta):
     for i in range(n):
         if abs(ax[i] - f[i]) > TOL * sc: return "|A x - b| in row %d = %.3e" % (i, float(abs(ax[i] - f[i])))
     return None
+
+# ------------------------------------------------------------------ exact QR oracles (perfect-square family)
+def check_sq_qr(line, out, meta):
+    """exact: R upper triangular, Q R = A, Q'Q = I_k, Q columns >= k zero, R'R = A'A   (C16_qr_factorize_correct)"""
+    a = meta["a"]; m = len(a); n = len(a[0]); k = min(m, n)
+    items = split_top(out)
+    if len(items) != 3: return "malformed output"
+    Qv, Rv = pv(items[0]), pv(items[1])
+    if Qv is None or Rv is None or len(Qv) != m * n or len(Rv) != k * n: return "malformed Q or R"
+    Qm = mat(Qv, m, n); Rm = mat(Rv, k, n)
+    for i in range(k):
+        for j in range(min(i, n)):
+            if Rm[i][j] != 0: return "R not upper triangular at (%d,%d)" % (i, j)
+    for i in range(m):
+        for j in range(n):
+            if sum(Qm[i][l] * Rm[l][j] for l in range(k)) != a[i][j]: return "Q R != A at (%d,%d) (exact)" % (i, j)
+    for i in range(k):
+        for j in range(k):
+            if sum(Qm[l][i] * Qm[l][j] for l in range(m)) != (1 if i == j else 0): return "Q'Q != I at (%d,%d) (exact)" % (i, j)
+    for i in range(m):
+        for j in range(k, n):
+            if Qm[i][j] != 0: return "Q column beyond min(m,n) not zero"
+    for i in range(n):
+        for j in range(n):
+            if sum(Rm[l][i] * Rm[l][j] for l in range(k)) != sum(a[l][i] * a[l][j] for l in range(m)):
+                return "R'R != A'A at (%d,%d) (exact)" % (i, j)
+    return None
+
+def check_sq_solve(line, out, meta):
+    """exact: rows >= cols: A'(A x - b) = 0; rows < cols: A x = b and x = A'(AA')^-1 b   (C16_qr_solve_*)"""
+    a = meta["a"]; b = meta["b"]; m = len(a); n = len(a[0])
+    x = pv(out)
+    if x is None or len(x) != n: return "malformed solution"
+    ax = [sum(a[i][j] * x[j] for j in range(n)) for i in range(m)]
+    if m >= n:
+        for c in range(n):
+            if sum(a[i][c] * (ax[i] - b[i]) for i in range(m)) != 0: return "normal equations violated in column %d (exact)" % c
+    else:
+        for i in range(m):
+            if ax[i] != b[i]: return "A x != b in row %d (exact)" % i
+        aat = [[sum(a[i][l] * a[j][l] for l in range(n)) for j in range(m)] for i in range(m)]
+        w = solve_exact(aat, b)
+        if w is None: return "generator error: A A' singular"
+        xe = [sum(a[i][j] * w[i] for i in range(m)) for j in range(n)]
+        if xe != x: return "x is not the minimum-norm solution A'(AA')^-1 b (exact)"
+    return None
+
+SQCHECK = {"qr": check_sq_qr, "qr2": check_sq_qr, "qrsolve": check_sq_solve, "qrsolvec": check_sq_solve}
 
 DCHECK = {"d.qr": check_dqr, "d.qr2": check_dqr, "d.qrsolve": check_dqrsolve, "d.qrsolvec": check_dqrsolve, "d.inv": check_dinv, "d.sky": check_dsky}
 
@@ -592,6 +707,37 @@ def run(ctx, cases_override=None):
             ctx["stats"]["oracle_checks"] += 1
     fails += oracle_run(ctx, olines, "C16 oracle on implementation output (spec functions DirectSpec.v / Kernels.spmv): A x = b, permutation, A inv(A) = I",
                         lambda oid: byid[oid.rsplit(".", 1)[0]])
+
+    # 2a. A3-B on the implementation: inverse() asserts exactly on the singular matrices (exact rank, python)
+    for l in exact:
+        cid, op, payload = l.split(" ", 2)
+        if op not in ("inv", "sminv"): continue
+        out = impl.get(cid)
+        if out is None or out.startswith(("CRASH", "UNSUPPORTED")): continue     # reported above
+        tok = payload.split(); n_ = int(tok[0]); av, _p = vec_of_line(tok, 1)
+        sing = rank(mat([F(v) for v in av], n_, n_)) < n_
+        ctx["stats"]["oracle_checks"] += 1
+        msg = None
+        if out.startswith("EXC") and not sing: msg = "assertion / exception (%s) on a NON-singular matrix: a zero pivot was chosen" % out
+        elif not out.startswith("EXC") and sing: msg = "inverse() returned normally on a singular matrix"
+        if msg:
+            fails.append(dict(kind="counterexample", case=l, impl=out[:2000], model=(model.get(cid) or "")[:2000], op=op, size=len(l),
+                              oracle=dict(op="rank." + op, result=msg),
+                              theorem="C16 A3-B on the implementation (C16_inverse_nonsingular): %s" % msg))
+
+    # 2b. exact QR oracles on the perfect-square family (implementation output, no tolerance)
+    for l in exact:
+        cid, op, payload = l.split(" ", 2)
+        mt = meta.get(cid)
+        if not mt or not mt.get("sq") or op not in SQCHECK: continue
+        out = impl.get(cid)
+        if out is None or out.startswith(("CRASH", "UNSUPPORTED", "EXC")): continue   # reported above
+        ctx["stats"]["oracle_checks"] += 1
+        msg = SQCHECK[op](l, out, mt)
+        if msg:
+            fails.append(dict(kind="counterexample", case=l, impl=out[:2000], model=(model.get(cid) or "")[:2000], op=op, size=len(l),
+                              oracle=dict(op="sq." + op, result=msg),
+                              theorem="C16 exact QR oracle on QR<vq::Q> output (perfect-square input, %s): %s" % (op, msg)))
 
     # 3. double build: residual oracles
     for l in implonly:
